@@ -143,6 +143,25 @@ def cases(tier, seed):
             tr += [part[i : i + 1].hex(), 0.5]
         steps += [['sendseg', tr], ['wait_closed', 4.0], ['sleep', 0.2]]
         out.append({'kind': 'trickle', 'config': cfg, 'steps': steps, 'H': H, 'quantum': 0.0002 if H <= 10 else 0.002, 'vtimeout': 4 * H + 60, 'wall': 120})
+    # (9) the KEEPALIVE which confirms the OPEN comes late (T < H after the OPEN); from then on the remote is never silent for
+    # more than H/3: the hold timer counts from the last message received, not from the moment OPENCONFIRM was entered
+    for H in ([6, 9] if tier == 'quick' else [4, 6, 9, 30]):
+        for T in (H - 1.5, H / 2.0):
+            cfg = {'hold': H, 'peer_hold': H, 'routes': 2, 'families': [(1, 1)]}
+            steps = [['accept', 20.0], ['wait_msg', rw.OPEN, 5.0], ['open'], ['sleep', T], ['ka'], ['wait_msg', rw.KEEPALIVE, 5.0]]
+            for i in range(int(2 * H / (H / 3.0)) + 2):
+                steps += [['sleep', H / 3.0], ['ka']]
+            steps += [['mark', 'end-of-gaps'], ['sleep', 0.2], ['eof']]
+            out.append({'kind': 'gaps', 'config': cfg, 'steps': steps, 'H': H, 'pair': [H, H], 'mk': 'late-confirm', 'gap': H / 3.0, 'quantum': 0.0002 if H <= 10 else 0.002, 'vtimeout': 5 * H + 60, 'wall': 120})
+    # (10) a slow consumer: the remote takes 200 octets a second from its socket (small buffers, a batch of 600 routes: one
+    # pass of the peer loop stays in its write for longer than H) and keeps sending a KEEPALIVE every H/3: it is never silent
+    for H in ([6] if tier == 'quick' else [4, 6, 9]):
+        cfg = {'hold': H, 'peer_hold': H, 'families': [(1, 1)], 'routes': 600, 'group_updates': False}
+        steps = [['accept', 20.0], ['sndbuf', 4096], ['establish'], ['throttle', 200.0]]
+        for i in range(int(8 * H / (H / 3.0))):
+            steps += [['sleep', H / 3.0], ['ka']]
+        steps += [['mark', 'end-of-gaps'], ['throttle', 0], ['sleep', 0.5], ['eof']]
+        out.append({'kind': 'gaps', 'config': cfg, 'steps': steps, 'H': H, 'pair': [H, H], 'mk': 'slow-reader', 'gap': H / 3.0, 'rcvbuf': 4096, 'quantum': 0.0005, 'vtimeout': 12 * H + 100, 'wall': 150})
     # (8) the remote stops reading while ExaBGP has a long batch to write (small socket buffers: the writer blocks) and stays silent
     for H in ([3, 9] if tier == 'quick' else [3, 5, 9, 30]):
         cfg = {'hold': H, 'peer_hold': H, 'families': [(1, 1)], 'routes': 6000, 'group_updates': False}
@@ -208,6 +227,15 @@ def judge(res: Result, case, rec):
             return
         early = [n for n in nts if n[0] <= end[0]]
         closed_early = sess['eof_at'] is not None and sess['eof_at'] < end[0]
+        # what a throttled remote has not read yet it cannot report: the in-process tap sees the session being left
+        est = [e['t'] for e in rec['events'] if e['kind'] == 'fsm' and e['dst'] == 'ESTABLISHED']
+        left = [e['t'] for e in rec['events'] if e['kind'] == 'fsm' and e['src'] == 'ESTABLISHED' and e['t'] <= end[0]]
+        if not est:
+            res.inconclusive.append(f'gaps:{case["mk"]}: never established {rec["notes"]}')
+            return
+        if left and not early and not closed_early:
+            closed_early = True
+            wit['left_established_at'] = left
         if early or closed_early:
             what = f'H={H}: session ended ({early or "closed"}) although the remote sent a {case["mk"]} every {case["gap"]}s (< H)'
             res.violation(f'C12/closed-despite-traffic:{case["mk"]}', what, wit, cls)
